@@ -142,6 +142,22 @@ def wiring():
         keys = [flow.dotted(s.value) for s in fn.body if isinstance(s, ast.Assign) and flow.dotted(s.targets[0]) == "cache_key"]
         ok = ok and keys == ["self.cache_key(name, context, kwargs)"]
         obs.append(flow.ob(f"{fname}:checks-cache-under-cache_key-and-loads-the-same-request", ok, detail, replay_schema="code", replay_extra={"code": REPLAY_CACHE}))
+        # ... and answers EVERY request through that check (freshness, globals of this request): no
+        # other return, in particular no shortcut that hands out a cache entry directly
+        rets = [r_ for r_ in ast.walk(fn) if isinstance(r_, ast.Return)]
+        def _is_check(v):
+            v = v.value if isinstance(v, ast.Await) else v
+            return isinstance(v, ast.Call) and flow.call_name(v) == chk
+        direct = [ast.unparse(x)[:60] for x in ast.walk(fn) if isinstance(x, ast.Subscript) and flow.dotted(x.value) == "self.cache"] + [ast.unparse(x)[:60] for x in flow.calls(fn) if flow.dotted(x.func).startswith("self.cache.")]
+        obs.append(flow.ob(f"{fname}:every-answer-comes-from-the-cache-check", bool(rets) and all(r_.value is not None and _is_check(r_.value) for r_ in rets) and not direct, f"returns: {[ast.unparse(r_)[:50] for r_ in rets]}; direct cache reads: {direct}", replay_schema="code", replay_extra={"code": REPLAY_CACHE}))
+    # the environment hands the loader the MERGED globals (environment globals + request globals): a
+    # cache hit assigns them to the cached template, so raw request globals would wipe the environment's
+    envc = load.get_module("liquid.environment").classes["Environment"]
+    for fname, lname in (("get_template", "load"), ("get_template_async", "load_async")):
+        fn = load._last_def(envc.body, fname)
+        lcalls = [cl for cl in flow.calls(fn) if flow.dotted(cl.func) == f"self.loader.{lname}"]
+        gl = [flow.dotted(flow.kwarg(cl, "globals")) if flow.kwarg(cl, "globals") is not None else "<missing>" for cl in lcalls]
+        obs.append(flow.ob(f"Environment.{fname}:the-loader-gets-the-merged-globals", bool(lcalls) and all(g == "self.make_globals(globals)" for g in gl), str(gl), replay_schema="code", replay_extra={"code": REPLAY_ENV_GLOBALS}))
     fs = load.get_module("liquid.builtin.loaders.file_system_loader").classes["FileSystemLoader"]
     for fname in ("get_source", "get_source_async"):
         fn = load._last_def(fs.body, fname)
@@ -230,3 +246,54 @@ def run(m):
     v = r["violations"]
     return {"failing": bool(v), "witness": v[0]["witness"] if v else "cache", "call": v[0]["source"] if v else "request sequences", "result": v[0]["got"] if v else "ok"}
 '''
+
+
+REPLAY_ENV_GLOBALS = r'''
+def run(m):
+    import asyncio
+    from liquid import Environment, CachingDictLoader
+    bad = []
+    for a in (False, True):
+        env = Environment(loader=CachingDictLoader({"t": "[{{ site }}|{{ x }}]"}), globals={"site": "S"})
+        outs = []
+        for i in range(3):
+            t = asyncio.run(env.get_template_async("t", globals={"x": i})) if a else env.get_template("t", globals={"x": i})
+            outs.append(t.render())
+        if outs != ["[S|0]", "[S|1]", "[S|2]"]:
+            bad.append((a, outs))
+    return {"violated": bool(bad), "observed": bad, "witness": "environment-globals-lost-on-a-cache-hit"}
+'''
+
+
+# ---- "namespaces are never substituted": a namespace given with the request (keyword argument)
+# ---- takes priority over one found in the render context, and either one prefixes the key
+
+@contract(MIXIN + ".cache_key", prop="C23", name="cache_key[request argument before context variable]")
+def cache_key_priority(c):
+    nk = c.str("namespace_key")
+    c.requires(z3.Length(nk.t) > 0, "namespacing configured")
+    self = c.obj(MIXIN, "loader", namespace_key=nk)
+    name = c.str("name")
+    arg_ns, ctx_ns = c.str("argument_namespace"), c.str("context_namespace")
+    has_arg, has_ctx = c.bool("argument_given"), c.bool("context_has_it")
+
+    def entry(eng, cc, func):
+        outs = []
+        for s1, ha in eng.branch(cc.st, has_arg.t):
+            args = s1.alloc(HDict(items={}))
+            if ha:
+                for s1b, _o in eng.set_item(s1, args, nk, arg_ns):
+                    s1 = s1b
+            for s2, hc in eng.branch(s1, has_ctx.t):
+                g = s2.alloc(HDict(items={}))
+                if hc:
+                    for s2b, _o in eng.set_item(s2, g, nk, ctx_ns):
+                        s2 = s2b
+                ctx = s2.alloc(HObj(("liquid.context", "RenderContext"), {"globals": g}, {}, "context"))
+                outs.extend(eng.run(func, s2, [name, ctx, args], {}, self_val=self))
+        return outs
+    c.entry = entry
+    want = z3.If(has_arg.t, z3.Concat(arg_ns.t, z3.StringVal("/"), name.t), z3.If(has_ctx.t, z3.Concat(ctx_ns.t, z3.StringVal("/"), name.t), name.t))
+    c.ensures("argument-namespace-first-then-context-namespace-then-the-bare-name", lambda r: r.value.t == want)
+    c.raises()
+    c.replay("code", code=REPLAY_KEY)
